@@ -3,11 +3,19 @@ package gen
 // partitions of (z, x, y): which of x, y the receiver is, and whether x = y
 var shapes3 = [][3]string{{"r2", "r0", "r1"}, {"r0", "r0", "r1"}, {"r1", "r0", "r1"}, {"r2", "r0", "r0"}, {"r0", "r0", "r0"}}
 
+var shapes4 = [][4]string{{"r2", "r0", "r1", "r3"}, {"r0", "r0", "r1", "r3"}, {"r1", "r0", "r1", "r3"}, {"r3", "r0", "r1", "r3"},
+	{"r2", "r0", "r0", "r3"}, {"r2", "r0", "r1", "r0"}, {"r2", "r0", "r1", "r1"}, {"r0", "r0", "r0", "r3"}, {"r0", "r0", "r1", "r0"},
+	{"r3", "r0", "r0", "r3"}, {"r1", "r0", "r1", "r1"}, {"r2", "r0", "r0", "r0"}, {"r0", "r0", "r0", "r0"}}
+
 // Alias generates the C10 programs: the same operation instance under every aliasing shape and
-// three receiver histories (fresh / previously much longer / previously special).
+// three receiver histories (fresh / previously much longer / previously special). In "uniform"
+// instances all operands and the receiver have the same precision, so every variant with the same
+// operand tuple must give the same outcome; those are tagged with a common "inst" and compared
+// with each other by the trace specification, besides being validated against it.
 func Alias(g *G, n int) []Program {
 	var out []Program
 	for i := 0; i < n; i++ {
+		inst := "i" + itoa(int64(i))
 		op := g.PickS("Add", "Sub", "Mul", "Quo", "FMA", "Set", "Neg", "Abs", "Sqrt", "SetMantExp", "MantExp", "Copy")
 		xd, yd, ud := g.Digits(g.Len()), g.Digits(g.Len()), g.Digits(g.Len())
 		xe := g.Exp()
@@ -20,62 +28,104 @@ func Alias(g *G, n int) []Program {
 		if op == "Sqrt" {
 			xn = false
 		}
+		switch g.R.Intn(8) {
+		case 0: // equal magnitudes: exact cancellation / doubling / quotient one
+			yd, ye = xd, xe
+		case 1: // u cancels the product of x and a one-digit y
+			if op == "FMA" {
+				yd, ye = "1", 1
+				ud, ue, un = xd, xe, !xn
+			}
+		}
 		xp, yp, up := g.Prec(), g.Prec(), g.Prec()
 		xm, ym, um := g.Mode(), g.Mode(), g.Mode()
 		zp, zm := g.Pick(0, g.Prec(), g.Prec()), g.Mode()
+		if g.R.Intn(3) == 0 {
+			zm = 4 // ToNegativeInf: the sign of exact zero results depends on it
+		}
+		uniform := g.Bool()
+		if uniform {
+			// one precision for everybody (Load raises it to the digit count, so take the maximum)
+			P := len(xd)
+			if len(yd) > P {
+				P = len(yd)
+			}
+			if len(ud) > P {
+				P = len(ud)
+			}
+			if g.Bool() {
+				P += g.R.Intn(20)
+			}
+			xp, yp, up = P, P, P
+			zp = g.Pick(0, P)
+		}
 		load := func() {
 			g.Load("r0", xn, xd, xe, xp, xm)
 			g.Load("r1", yn, yd, ye, yp, ym)
 			g.Load("r3", un, ud, ue, up, um)
 		}
-		hist := func(z string) {
-			switch g.R.Intn(3) {
+		hist := func(z string, h int) {
+			switch h {
 			case 0:
 				g.Emit(M{"op": "New", "z": z})
-			case 1: // previously a much longer value: capacity and stale words exist
+			case 1: // previously a much longer value: capacity and stale words exist; SetPrec below leaves a stale accuracy
 				g.Load(z, g.Bool(), g.Digits(400+g.R.Intn(400)), g.Exp(), 0, g.Mode())
-			default: // previously special: no buffer
+			default: // previously special: no buffer, stale sign
 				g.Emit(M{"op": "New", "z": z})
-				g.Emit(M{"op": "SetInf", "z": z, "neg": g.Bool()})
+				g.Emit(M{"op": "SetInf", "z": z, "neg": true})
 			}
 			g.Emit(M{"op": "SetMode", "z": z, "m": zm})
 			g.Emit(M{"op": "SetPrec", "z": z, "p": zp})
 		}
+		receiver := func(z string, h int) {
+			if z == "r2" {
+				hist("r2", h)
+			} else {
+				// the receiver is an operand: give it the receiver's mode without changing its value
+				g.Emit(M{"op": "SetMode", "z": z, "m": zm})
+			}
+		}
+		tag := func(v M, key string) M {
+			if uniform {
+				v["inst"] = inst + key
+			}
+			return v
+		}
 		switch op {
 		case "Add", "Sub", "Mul", "Quo":
 			for _, sh := range shapes3 {
-				load()
+				hs := []int{g.R.Intn(3)}
 				if sh[0] == "r2" {
-					hist("r2")
-				} else {
-					// the receiver is an operand: give it the receiver attributes without changing its value
-					g.Emit(M{"op": "SetMode", "z": sh[0], "m": zm})
+					hs = []int{0, 1, 2}
 				}
-				g.Emit(M{"op": op, "z": sh[0], "x": sh[1], "y": sh[2]})
+				for _, h := range hs {
+					load()
+					receiver(sh[0], h)
+					g.Emit(tag(M{"op": op, "z": sh[0], "x": sh[1], "y": sh[2]}, sh[1]+sh[2]))
+				}
 			}
 		case "FMA":
-			for _, sh := range [][4]string{{"r2", "r0", "r1", "r3"}, {"r0", "r0", "r1", "r3"}, {"r1", "r0", "r1", "r3"}, {"r3", "r0", "r1", "r3"},
-				{"r2", "r0", "r0", "r3"}, {"r2", "r0", "r1", "r0"}, {"r2", "r0", "r1", "r1"}, {"r0", "r0", "r0", "r3"}, {"r0", "r0", "r1", "r0"},
-				{"r3", "r0", "r0", "r3"}, {"r1", "r0", "r1", "r1"}, {"r2", "r0", "r0", "r0"}, {"r0", "r0", "r0", "r0"}} {
-				load()
-				if sh[0] == "r2" {
-					hist("r2")
-				} else {
-					g.Emit(M{"op": "SetMode", "z": sh[0], "m": zm})
+			for _, sh := range shapes4 {
+				hs := []int{g.R.Intn(3)}
+				if sh[0] == "r2" && sh[1] != sh[2] && sh[3] == "r3" {
+					hs = []int{0, 1, 2}
 				}
-				g.Emit(M{"op": "FMA", "z": sh[0], "x": sh[1], "y": sh[2], "u": sh[3]})
+				for _, h := range hs {
+					load()
+					receiver(sh[0], h)
+					g.Emit(tag(M{"op": "FMA", "z": sh[0], "x": sh[1], "y": sh[2], "u": sh[3]}, sh[1]+sh[2]+sh[3]))
+				}
 			}
 		default:
-			for _, z := range []string{"r2", "r0"} {
+			for _, z := range []string{"r2", "r2", "r2", "r0"} {
 				load()
-				if z == "r2" {
-					hist("r2")
-				} else {
-					g.Emit(M{"op": "SetMode", "z": z, "m": zm})
-				}
+				receiver(z, g.R.Intn(3))
 				s := M{"op": op, "z": z, "x": "r0"}
 				if op == "SetMantExp" {
-					s["e"] = itoa(int64(g.R.Intn(41) - 20))
+					s["e"] = "7"
+				}
+				if op != "Copy" && op != "SetMantExp" && op != "MantExp" { // those take their attributes from x, not from z
+					s = tag(s, "r0")
 				}
 				g.Emit(s)
 			}
